@@ -802,4 +802,5 @@ def run(tier, seed, only=None, nproc=None):
         assumptions=["NumPy's generator is replaced by tagged symbolic draws: what is checked is WHICH distribution with WHICH parameters each sample comes from",
                      "'within sampling error' and seed determinism are properties of NumPy's RNG and are not claimed; replays use sample statistics of the real generator",
                      "np.linalg.eigvals -> symbolic eigenvalues; check_array -> identity; constants of celeux_two's dependent variables are not judged"],
-        bounds={"tier": tier, "K": "2..3", "d": "1..2 (3 thorough)", "n": 2})
+        bounds={"tier": tier, "K": "2..3", "d": "1..2 (3 thorough)", "n": 2,
+                "moments jobs": "n=1 on the concrete parameter sets of MOMENT_CASES (K=3,4; d=1,2; singular covariances): label probabilities by path measure, mean/covariance by affine analysis"})
